@@ -136,7 +136,8 @@ def build(case):
     for i, s in enumerate(case['subs']):
         sub_case = {'n': n, 'nE': s['nE'], 'check': s['check'], 'vals': s['vals'], 'status': s['status'], 'iters': s['iters'],
                     'script': s['script'], 'before': [], 'after': [],
-                    'names': s.get('names'), 'prov': s.get('prov', 'fresh'), 'write': s.get('write', 'inplace')}
+                    'names': s.get('names'), 'prov': s.get('prov', 'fresh'), 'write': s.get('write', 'inplace'),
+                    'mix': s.get('mix')}
         m = sc.build_instance(sub_case, exo=())
         m.__dict__['calls'] = ProxyLog(log, i)
         subs[i] = m
@@ -173,13 +174,24 @@ def state_str(L, case):
 def run_impl(case):
     L = build(case)
     o = case['opts']
-    kw = dict(min_iter=o['min_iter'], max_iter=o['max_iter'], tol=unbits(case['tol']), offset=o['offset'],
-              failures=o['failures'], errors=o['errors'], catch_first_error=o['catch_first_error'])
+    kw = sc.opts_kwargs(o, case['tol'], case.get('argform', 'plain'))
     sel = case['sel']
+    # the selection in the form the caller happens to have it: list, tuple, a one-shot iterator, dict keys
+    form = case.get('selform', 'list')
+    if case.get('sel_none'):
+        sub_arg = None
+    elif form == 'tuple':
+        sub_arg = tuple(sel)
+    elif form == 'keys':
+        sub_arg = dict.fromkeys(sel).keys() if len(set(sel)) == len(sel) else list(sel)
+    elif form == 'nparray' and sel and all(isinstance(x, int) for x in sel):
+        sub_arg = [np.int64(x) for x in sel]
+    else:
+        sub_arg = list(sel)
     with warnings.catch_warnings():
         warnings.simplefilter('ignore')
         try:
-            r = L.solve_t(case['t'], submodels=(None if case.get('sel_none') else list(sel)), **kw)
+            r = L.solve_t(sc.t_arg(case), submodels=sub_arg, **kw)
             tag = 'ret:T' if r else 'ret:F'
         except NonConvergenceError:
             tag = 'NonConvergenceError'
@@ -217,7 +229,7 @@ def gen_case(rng):
                      'iters': [rng.choice([-1, 5]) for _ in range(n)] if rng.random() < 0.3 else [-1] * n,
                      # implementation-side variations the model cannot see
                      'names': rng.choice(sc.NAME_STYLES), 'prov': rng.choice(sc.PROVENANCES),
-                     'write': rng.choice(['inplace', 'inplace', 'rebind'])})
+                     'write': rng.choice(['inplace', 'inplace', 'rebind']), 'mix': rng.choice(sc.MIXES)})
     nL = rng.choice([0, 0, 1, 2])
     lcheck = sorted(rng.sample(range(nL), rng.choice([nL, 0]))) if nL else []
     lvals = [[float(rng.choice([0.0, 1.0, 7.0])) for _ in range(n)] for _ in range(nL)]
@@ -257,7 +269,8 @@ def gen_case(rng):
         sel = list(reversed(ids))
     return {'n': n, 'tol': bits(sc.TOL), 'lcheck': lcheck, 'lvals': [[bits(x) for x in r] for r in lvals], 'subs': subs,
             'solve_before': sb, 'solve_after': sa, 'eval_before': hooks_rows(), 'eval_after': hooks_rows(),
-            'status': '-' * n, 'iters': [-1] * n, 'opts': o, 't': t, 'sel': sel, 'sel_none': sel_none}
+            'status': '-' * n, 'iters': [-1] * n, 'opts': o, 't': t, 'sel': sel, 'sel_none': sel_none,
+            'argform': rng.choice(['plain', 'plain', 'numpy']), 'selform': rng.choice(['list', 'list', 'tuple', 'keys', 'nparray'])}
 
 
 # ---- oracle -----------------------------------------------------------------------------------------------------
